@@ -5,7 +5,7 @@ import numpy as np
 
 import darsia
 from vf import frame, stubs
-from vf.core import and_, eq, ob
+from vf.core import and_, eq, ob, same
 
 MODS = ["darsia.utils.fv"]           # grid.py runs natively: it only handles concrete integer index arrays
 FUNCS = ["darsia.utils.fv:FVDivergence.__init__", "darsia.utils.fv:FVMass.__init__", "darsia.utils.fv:face_to_cell",
@@ -141,6 +141,16 @@ def c06_c2f(ctx, shape):
         forms.pop("vector")      # (n, 1) is the documented single-component form
     for name, shp in forms.items():
         q = ctx.array("q" + name, shp, pos=True, sample=(0.1, 5.0))
+        for layout in ("C", "F"):
+            qq = np.asfortranarray(q.copy()) if layout == "F" else q.copy()
+            snap = qq.copy()
+            first = {}
+            for mode in ("harmonic", "arithmetic", "harmonic"):
+                r = darsia.cell_to_face_average(grid, qq, mode)
+                if mode in first:
+                    ctx.ensure(f"{name}/{layout}: repeated {mode} averaging of the same field gives the same result", eq(r, first[mode]) if nf else True)
+                first.setdefault(mode, r)
+            ctx.ensure(f"{name}/{layout}: the cell field passed in is not written", same(qq, snap))
         for mode in ("arithmetic", "harmonic"):
             got = darsia.cell_to_face_average(grid, q, mode)
             ctx.ensure(f"{name}/{mode}: one value per face", np.shape(got) == (nf,))
